@@ -235,6 +235,58 @@ func genC01(ctx *Ctx) {
 		e.close()
 	}
 	c01UnpreparedSaturated(ctx, &tag)
+	c01Traced(ctx, &tag)
+}
+
+// c01Traced: the proxy records every atomic step of its request path (build tag verif: stream-table pushes, pops, close
+// notifications; each request's start, host choices, retry decisions, replies) while concurrent clients run scripted
+// outcomes and hosts drop their connections; the record sequence is handed to the monitor of Model/Monitor.v, which accepts
+// exactly the executions Model/Core.v / CorePrep.v allow.  One case per traced run.
+func c01Traced(ctx *Ctx, tag *int) {
+	r := ctx.Rng
+	for run := 0; run < ctx.Scale(4, 40); run++ {
+		proxycore.VerifTraceStart()
+		e := newEchoEnv(3, func(c *proxy.Config) {
+			c.ReconnectPolicy = proxycore.NewReconnectPolicyWithDelays(time.Millisecond, 5*time.Millisecond)
+		})
+		var tally c01Tally
+		add := func(t c01Tally) {
+			tally.requests += t.requests
+			tally.one += t.one
+			tally.zero += t.zero
+			tally.many += t.many
+			tally.wrongStream += t.wrongStream
+		}
+		for i := 0; i < 3; i++ {
+			*tag++
+			add(c01Round(e, *tag, 1+r.Intn(3), 1+r.Intn(40), r, c01Script, nil))
+		}
+		if run%2 == 1 {
+			*tag++
+			hold := make(chan struct{})
+			e.be.Default = fb.Outcome{Kind: fb.OkRows, Hold: hold}
+			h := 1 + r.Intn(3)
+			add(c01Round(e, *tag, 2, 50, r, nil, func() {
+				time.Sleep(150 * time.Millisecond)
+				e.be.DropConns(h)
+				time.Sleep(50 * time.Millisecond)
+				close(hold)
+			}))
+			e.be.Default = fb.Outcome{Kind: fb.OkRows}
+		}
+		recs := proxycore.VerifTraceStop()
+		e.close()
+		kinds := map[string]int64{"table": 0, "push": 1, "pop": 2, "notify": 3, "closing": 4, "start": 5, "host": 6, "decision": 7, "reply": 8, "onclose": 9}
+		var rv []hv.V
+		for _, x := range recs {
+			rv = append(rv, hv.L(hv.I(kinds[x.Kind]), hv.I(x.Table), hv.I(x.Stream), hv.I(x.Req), hv.I(x.ReqKind), hv.I(x.Obj), hv.I(x.A), hv.I(x.B), hv.I(x.C), hv.S(x.S)))
+			ctx.Count("trace-record:" + x.Kind)
+		}
+		quiescent := tally.zero == 0
+		ctx.Emit(hv.L(hv.I(8), hv.Bool(quiescent), hv.L(rv...)), hv.L(hv.I(0)),
+			fmt.Sprintf("traced-run: %d records, %d requests, %d answered once", len(recs), tally.requests, tally.one))
+		ctx.Count("traced-run")
+	}
 }
 
 // c01UnpreparedSaturated: all but one stream id of the only backend connection are in use;
